@@ -264,7 +264,7 @@ prop("C14", "exploration",
      "absolute paths, backslashes, percent-encoding, empty segments, 300-character names, unicode, '.'/'..' and slash-containing source names); oracle: every "
      "change of the sandbox lies under the stage / final / receive-log / serve directory of the source the request was authorised for (or the message log), no "
      "answer contains a canary token, a 4xx answer changed nothing; non-trivial = a request carrying at least one escaping field",
-     [dict(pkg="wirex", test="TestC14Wire", world="W3", needs_sts_binary=True, quick=160, thorough=6000, shards=8, shrinktime="60s", timeout=1500,
+     [dict(pkg="wirex", test="TestC14Wire", world="W3", needs_sts_binary=True, quick=240, thorough=6000, shards=8, shrinktime="60s", timeout=1500,
            required_classes=["escape-attempt"])],
      WIRE_ASSUME + ["symlink planting inside the roots by a local user is out of scope (the property is about requests)"])
 
